@@ -82,6 +82,28 @@ func c13Read(v *View) (int, error) {
 	return len(ids), nil
 }
 
+// c13Quiet waits until no job runs and no tag reports undecided streams, five polls in a row.
+func c13Quiet(mgr *Manager, limit time.Duration) bool {
+	deadline := time.Now().Add(limit)
+	quietFor := 0
+	for time.Now().Before(deadline) && quietFor < 5 {
+		st := mgr.Status()
+		busy := st.ImportJobCount != 0 || st.TaggingJobRunning || st.MergeJobRunning || st.ConverterJobRunning
+		for _, ti := range mgr.ListTags() {
+			if ti.UncertainCount != 0 {
+				busy = true
+			}
+		}
+		if busy {
+			quietFor = 0
+		} else {
+			quietFor++
+		}
+		time.Sleep(10 * time.Millisecond)
+	}
+	return quietFor >= 5
+}
+
 func TestC13Standin(t *testing.T) {
 	nHist, _ := strconv.Atoi(os.Getenv("C13_HISTORIES"))
 	if nHist == 0 {
@@ -173,8 +195,24 @@ func TestC13Standin(t *testing.T) {
 					ops = append(ops, fmt.Sprintf("UpdateQuery(%s,%q)", n, def))
 				}
 			default:
-				time.Sleep(time.Duration(rng.Intn(40)) * time.Millisecond)
-				ops = append(ops, "pause")
+				if rng.Intn(3) == 0 && nImports > 0 {
+					// restart on the same directories: the loaded files are held once by the new service list
+					for _, hv := range views {
+						hv.v.Release()
+					}
+					views = nil
+					// background jobs of the old service must be done: in one process they would go on
+					// working in the directory the new service uses
+					if !c13Quiet(mgr, 40*time.Second) {
+						fail("never-quiet", strings.Join(ops, "; "), "after 40 s a job is still running")
+					}
+					mgr.Close()
+					mgr = makeManager(t, d)
+					ops = append(ops, "release all views; wait; restart")
+				} else {
+					time.Sleep(time.Duration(rng.Intn(40)) * time.Millisecond)
+					ops = append(ops, "pause")
+				}
 			}
 			// every held view still reads everything it showed when it was opened
 			for _, hv := range views {
@@ -197,24 +235,7 @@ func TestC13Standin(t *testing.T) {
 		ops = append(ops, "release all views")
 		hist := strings.Join(ops, "; ")
 		// wait until the service is quiet (and stays quiet: a finished job may start the next one)
-		deadline := time.Now().Add(40 * time.Second)
-		quietFor := 0
-		for time.Now().Before(deadline) && quietFor < 5 {
-			st := mgr.Status()
-			busy := st.ImportJobCount != 0 || st.TaggingJobRunning || st.MergeJobRunning || st.ConverterJobRunning
-			for _, ti := range mgr.ListTags() {
-				if ti.UncertainCount != 0 {
-					busy = true
-				}
-			}
-			if busy {
-				quietFor = 0
-			} else {
-				quietFor++
-			}
-			time.Sleep(10 * time.Millisecond)
-		}
-		if quietFor < 5 {
+		if !c13Quiet(mgr, 40*time.Second) {
 			// settling is C09's subject; without quiescence the comparison below has no meaning
 			fail("never-quiet", hist, "after 40 s a job is still running")
 			mgr.Close()
